@@ -22,6 +22,10 @@ KeysQ == {<<>>, <<A>>, <<A, B>>, <<A, B, C>>, <<A, B, C, D>>, <<B>>, <<C>>,
           \* keys no name can equal: with '=' and with an embedded NUL
           <<A, EQ_>>, <<EQ_, A>>, <<EQ_>>, <<A, 0>>, <<0>>, <<A, EQ_, x, 0, B>>}
 
+\* duplicates whose first / later matching entry has a non-UTF-8 value (var must convert the FIRST match)
+EntriesU == {<<A, EQ_, FF>>, <<A, EQ_, x>>, <<A, B, EQ_, FF>>, <<A, B, EQ_, y>>, <<B, EQ_, x>>}
+KeysU == {<<A>>, <<A, B>>, <<B>>, <<C>>}
+
 \* for the boot / args walks the contents matter little: few strings, all lengths 0..3
 ArgStrs == {<<>>, <<a>>, <<FF>>}
 ArgvsQ == UNION {[1..k -> ArgStrs] : k \in 0..3}
